@@ -762,6 +762,7 @@ fn check_merge(rep: &mut Report, dir: &std::path::Path, i: usize) {
     let nb = 1 + (i / 3) % 3;                 // data items in the second file
     let extra_key = (i / 9) % 2 == 1;         // the second file declares one more key
     let shared = (i / 18) % 2 == 1;           // the second file repeats the first data item of the first file
+    let order = (i / 36) % 3;                 // the second file declares the keys in the same order / reversed / only those it uses, reversed
     let keys_a = vec!["k1", "k2"];
     let mut keys_b = keys_a.clone();
     if extra_key { keys_b.push("k3"); }
@@ -778,13 +779,14 @@ fn check_merge(rep: &mut Report, dir: &std::path::Path, i: usize) {
     let res = "{\"@type\": \"TextResource\", \"@id\": \"r\", \"text\": \"hello w\u{f6}rld again\"}";
     let doc_a = format!("{{\"@type\": \"AnnotationStore\", \"@id\": \"first\", \"resources\": [{}], \"annotationsets\": [{}], \"annotations\": [{}]}}", res, set(&keys_a, &data_a), ann_text("A1", 0, 5, &["DA0"]));
     let last_b = format!("DB{}", nb - 1);
-    let doc_b = format!("{{\"@type\": \"AnnotationStore\", \"@id\": \"second\", \"resources\": [{}], \"annotationsets\": [{}], \"annotations\": [{}, {}]}}", res, set(&keys_b, &data_b), ann_text("A2", 6, 11, &["DB0"]), ann_ann("A3", "A1", &["DA0", last_b.as_str()]));
+    let keys_b_declared: Vec<&str> = match order { 0 => keys_b.clone(), 1 => keys_b.iter().rev().cloned().collect(), _ => keys_b.iter().rev().filter(|k| data_b.iter().any(|d| d.contains(&format!("\"key\": \"{}\"", k)))).cloned().collect() };
+    let doc_b = format!("{{\"@type\": \"AnnotationStore\", \"@id\": \"second\", \"resources\": [{}], \"annotationsets\": [{}], \"annotations\": [{}, {}]}}", res, set(&keys_b_declared, &data_b), ann_text("A2", 6, 11, &["DB0"]), ann_ann("A3", "A1", &["DA0", last_b.as_str()]));
     let (pa, pb) = (sub.join("a.store.stam.json"), sub.join("b.store.stam.json"));
     std::fs::write(&pa, &doc_a).ok();
     std::fs::write(&pb, &doc_b).ok();
-    let ctx = vec![format!("merge: first file {} data item(s), second file {} data item(s){}{} in the dataset \"s\" both declare; annotation A3 (second file) targets A1 (first file) and uses data of both", na, nb, if extra_key { ", one more key" } else { "" }, if shared { ", repeating DA0" } else { "" })];
+    let ctx = vec![format!("second file declares the keys {:?} (first file: {:?})", keys_b_declared, keys_a), format!("merge: first file {} data item(s), second file {} data item(s){}{} in the dataset \"s\" both declare; annotation A3 (second file) targets A1 (first file) and uses data of both", na, nb, if extra_key { ", one more key" } else { "" }, if shared { ", repeating DA0" } else { "" })];
     rep.count("json:merge");
-    rep.case(Some(&format!("merge {} {} {} {}", na, nb, extra_key, shared)));
+    rep.case(Some(&format!("merge {} {} {} {} {}", na, nb, extra_key, shared, order)));
     let (pas, pbs) = (pa.to_str().unwrap().to_string(), pb.to_str().unwrap().to_string());
     let loaded = guarded(std::panic::AssertUnwindSafe(|| AnnotationStore::from_file(&pas, Config::default()).and_then(|s| s.with_file(&pbs))));
     let store = match loaded { Ok(Ok(s)) => s, Ok(Err(e)) => { rep.fail("oracle", "C05/merge/second-file-refused", ctx, "both files loaded", &format!("{}", e)); std::fs::remove_dir_all(&sub).ok(); return; } Err(m) => { rep.fail("panic", "C05/merge/panics", ctx, "both files loaded", &m); std::fs::remove_dir_all(&sub).ok(); return; } };
@@ -803,7 +805,7 @@ fn check_merge(rep: &mut Report, dir: &std::path::Path, i: usize) {
         v.extend(anns);
         v
     };
-    let mut want = vec![format!("keys {:?}", { let mut k: Vec<String> = keys_b.iter().map(|x| x.to_string()).collect(); k.sort(); k })];
+    let mut want = vec![format!("keys {:?}", { let mut k: Vec<String> = keys_a.iter().chain(keys_b_declared.iter()).map(|x| x.to_string()).collect(); k.sort(); k.dedup(); k })];
     let mut wd: Vec<String> = expect_data.iter().map(|(id, k, v)| format!("data {}:{}=s:{}", id, k, v)).collect(); wd.sort();
     want.extend(wd);
     want.push("datasets 1".into());
@@ -886,7 +888,7 @@ pub fn run(opts: &Opts) -> Report {
             rep.sample(json!({"script": script, "canonical_form": before}));
         }
     }
-    if property.map(|p| p == "C05").unwrap_or(true) { for i in 0..12 { check_substores(&mut rep, &dir, i); } for i in 0..36 { check_merge(&mut rep, &dir, i); } }
+    if property.map(|p| p == "C05").unwrap_or(true) { for i in 0..12 { check_substores(&mut rep, &dir, i); } for i in 0..108 { check_merge(&mut rep, &dir, i); } }
     // minimise
     let mut done: std::collections::BTreeSet<(String, String)> = Default::default();
     for idx in 0..rep.failures.len() {
